@@ -110,6 +110,9 @@ func runC20(r *Run) {
 
 	// ---------- R1 ----------
 	detProcessLocalWrites(r, sc)
+	// package-level variables are process-local memory too (same rule code as C01 R4)
+	r.Rule("R1g", "see C01 R4 (imported): no consensus-scope write to a package-level variable of a Haqq package")
+	r.Import("R1g/C01.", []string{"R4"}, func(r2 *Run) { detGlobalWrites(r2, sc, sc.S.HaqqFuncs()) })
 	runC20Controls(r)
 
 	// ---------- R2 ----------
